@@ -76,6 +76,7 @@ func init() {
 			{Pkg: "flv", Func: "HarnessC10_VideoRT", Labels: []string{"video-rt"}, Bound: "all valid video frames (fields symbolic, CTS 24 bits), raw 0-4 symbolic bytes"},
 			{Pkg: "flv", Func: "HarnessC10_AudioCanon", Labels: []string{"audio-canon", "audio-canon-rejected"}, Bound: "every byte string of 1-7 bytes as audio tag body"},
 			{Pkg: "flv", Func: "HarnessC10_VideoCanon", Labels: []string{"video-canon", "video-canon-rejected"}, Bound: "every byte string of 1-7 bytes as video tag body"},
+			{Pkg: "flv", Func: "HarnessC10_Stateless", Labels: []string{"stateless"}, Bound: "two arbitrary bodies of 2-4 bytes decoded in sequence by one audio / video packager vs fresh packagers"},
 			{Pkg: "flv", Func: "HarnessC10_Rates", Labels: []string{"rates-flv", "rates-opus"}, Bound: "all defined FLV (0-3) and Opus (8,12,16,24,48) rate codes, receiver symbolic"},
 		},
 	})
@@ -162,7 +163,7 @@ func init() {
 			{Pkg: "rtmp", Func: "HarnessC02_Headers", Labels: []string{"headers", "extdelta"},
 				Bound: "one chunk stream (form 1/2/3 forked, id symbolic in 3..63 / 64..319 / 64..65599), 2 messages (thorough 2-3), later ones with header type 0/1/2/3 forked; timestamps and deltas 32 symbolic bits (extended timestamps are solver choices); payload 1-4 symbolic bytes"},
 			{Pkg: "rtmp", Func: "HarnessC02_Interleave", Labels: []string{"interleave"},
-				Bound: "Set Chunk Size with symbolic size in [1,2^31-1], two chunk streams (forms forked, ids symbolic and distinct), one message of 1-4 bytes each, all interleavings of their chunks"},
+				Bound: "Set Chunk Size with symbolic size in [1,2^31-1], two chunk streams (forms forked, ids symbolic and distinct), one message of 1-4 bytes each, all interleavings of their chunks, optionally a second Set Chunk Size (symbolic) between chunks of unfinished messages"},
 			{Pkg: "rtmp", Func: "HarnessC02_Reject", Labels: []string{"reject", "reject-librtmp-ok"},
 				Bound: "one rule violation per stream: fresh chunk stream starting with fmt 1/2/3; fmt 0 inside an unfinished message; length changed mid-message (other length 24 symbolic bits); plus the documented librtmp ping which must be accepted"},
 		},
